@@ -1,6 +1,7 @@
 package c09
 
 import (
+	"regexp"
 	"sort"
 	"strconv"
 	"strings"
@@ -159,6 +160,19 @@ var (
 		"a\nb", "a.b", "axb", "A\nB", "warn", "WARN", "WARNING", "[x]", "x", "1.5",
 	}
 )
+
+// numFamilies: numbers that are equal (or indistinguishable) as float64 and differ as text
+var numFamilies = [][]string{
+	{"1700000000123456789", "1700000000123456790", "1700000000123456791"},
+	{"1.50", "1.5", "1.500"},
+	{"1e3", "1E3", "1000", "1000.0"},
+	{"1E-2", "0.01", "1e-2"},
+	{"-0", "0", "0.0"},
+	{"0.10", "0.1"},
+	{"100.0", "100", "1e2"},
+	{"0.1234567890123456789", "0.1234567890123456788", "3.14159265358979323846264338327950288"},
+	{"9007199254740993", "9007199254740992"},
+}
 
 // unwrapped values of the "negative" mode
 var nonPositive = []string{"-1", "-3", "-7.5", "0", "-10", "-2", "-0.5"}
@@ -452,6 +466,19 @@ func genCaseOpt(rt *rapid.T, opt genOpts) splitCase {
 		}
 	}
 	collide := !lfFirst && !tmplMode && rapid.IntRange(0, 3).Draw(rt, "collidemode") == 0
+	// "number text" mode (1 case in 3 of what is left): 3 lines in 4 carry the key "id" with a
+	// NUMBER whose text matters: integers above 2^53 differing in the last digit, 1.50 / 1.5,
+	// 1e3 / 1E3 / 1000, 1E-2 / 0.01, -0 / 0, 0.10 / 0.1, 100.0 / 100, long decimals. LogQL (and
+	// qryn's SQL engine through JSONExtractRaw) keep the number's text as the label value; the
+	// query groups by id and filters on it as a string.
+	numMode := !lfFirst && !tmplMode && !rxMode && !collide && rapid.IntRange(0, 2).Draw(rt, "nummode") == 0
+	var numTexts []string
+	if numMode {
+		nf := rapid.IntRange(1, 2).Draw(rt, "num_families")
+		for i := 0; i < nf; i++ {
+			numTexts = append(numTexts, numFamilies[rapid.IntRange(0, len(numFamilies)-1).Draw(rt, "num_family")]...)
+		}
+	}
 	collideName := ""
 	plain := false
 	if collide {
@@ -512,6 +539,9 @@ func genCaseOpt(rt *rapid.T, opt genOpts) splitCase {
 			}
 			if tmplMode {
 				line = tmplLine(rt, format)
+			}
+			if numMode && rapid.IntRange(0, 3).Draw(rt, "num_line") > 0 {
+				line = withNumber(line, format, "id", pick(rt, numTexts, "num_text"))
 			}
 			if rxMode && rapid.IntRange(0, 3).Draw(rt, "rxline") > 0 {
 				w := pick(rt, rxFamily, "rxword")
@@ -612,6 +642,23 @@ func genCaseOpt(rt *rapid.T, opt genOpts) splitCase {
 	if negMode && npost > 1 {
 		npost = 1
 	}
+	if numMode {
+		// a string comparison on the number's text, or the same key once more through json
+		// with a parameter (in-process as well: it follows the split)
+		switch rapid.IntRange(0, 3).Draw(rt, "num_stage") {
+		case 0, 1:
+			v := pick(rt, numTexts, "num_fval")
+			op := pick(rt, []string{"=", "!=", "=", "=~"}, "num_fop")
+			if op == "=~" {
+				v = "^" + regexp.QuoteMeta(v) + "$"
+			}
+			c.Expr.Stages = append(c.Expr.Stages, refeval.Stage{Kind: refeval.KLabelFilter, Filter: &refeval.LabelFilter{Label: "id", Cmp: op, Str: &v}})
+		case 2:
+			if format == "json" {
+				c.Expr.Stages = append(c.Expr.Stages, refeval.Stage{Kind: refeval.KJSON, Params: []refeval.Param{{Name: "idp", Val: "id"}}})
+			}
+		}
+	}
 	opt.hot, opt.hotVals = "app", dropValues["app"]
 	if collide {
 		opt.hot, opt.hotVals = collideName, collideVals
@@ -682,6 +729,18 @@ func genCaseOpt(rt *rapid.T, opt genOpts) splitCase {
 			}
 			if rapid.IntRange(0, 3).Draw(rt, "acmp") == 0 {
 				c.Expr.AggCmp = genComparison(rt)
+			}
+		}
+		if numMode {
+			by := []string{"id"}
+			if rapid.Bool().Draw(rt, "num_by_app") {
+				by = append(by, "app")
+			}
+			if c.Expr.AggFn != "" && rapid.IntRange(0, 2).Draw(rt, "num_agroup") > 0 {
+				c.Expr.AggGroup = &refeval.Grouping{Labels: by, Suffix: rapid.Bool().Draw(rt, "num_suffix")}
+			}
+			if shape >= 4 && !negMode && rapid.Bool().Draw(rt, "num_rgroup") {
+				c.Expr.RangeGroup = &refeval.Grouping{Labels: by, Suffix: rapid.Bool().Draw(rt, "num_rsuffix")}
 			}
 		}
 		// step <= range (larger steps: the engines' conventions are not settled, see NOTES)
